@@ -264,6 +264,12 @@ def objectiveAtFull (w : Wrapper) (expF logF : Rat → Rat) (pb : Problem) (m : 
   let r := objectFunc lo up none (if w.objLlScale then pb.llScale else 1) m v
   if w.negated then - r.1 else r.1
 
+/-- the optimiser's answer is one of its own (query, value) pairs -/
+def answerEvaluated (r : OptRun) : Bool :=
+  match r.final with
+  | none => false
+  | some xf => r.history.any fun q => q.1 == xf.1 && q.2 == xf.2
+
 /-- names of the clauses of C12 that FAIL on this run (empty = the run satisfies the property) -/
 def checkTrace (w : Wrapper) (expF logF : Rat → Rat) (pb : Problem) (m : ModelFn) (tol vtol : Rat) (r : WrapperRun) :
     List String :=
@@ -277,13 +283,18 @@ def checkTrace (w : Wrapper) (expF logF : Rat → Rat) (pb : Problem) (m : Model
     | some v =>
       (if inBox tol pb v then [] else ["result_in_bounds"]) ++
       (if fixedOk pb.fixed v then [] else ["result_fixed"]) ++
-      (match r.reported with
-       | none => []
-       | some f => if closeTol vtol (objectiveAtFull w expF logF pb m v) f then [] else ["ll_result_is_reported"]) ++
-      (if w.maximize && w.start.isSome then
-         (if decide (objectiveAtFull w expF logF pb m (startFull pb) ≤
-                     objectiveAtFull w expF logF pb m v + vtol * ratAbs (objectiveAtFull w expF logF pb m v))
-          then [] else ["no_worse_than_start"])
+      -- the two likelihood clauses are claimed under the hypothesis of C12_reported_is_ll_of_result: the optimiser answered with a
+      -- point it evaluated and the value it got there (checked here on the trace; a third-party optimiser that answers otherwise
+      -- is reported by the harness as such, not as a failure of the wrapper)
+      (if answerEvaluated r.run then
+        (match r.reported with
+         | none => []
+         | some f => if closeTol vtol (objectiveAtFull w expF logF pb m v) f then [] else ["ll_result_is_reported"]) ++
+        (if w.maximize && w.start.isSome then
+           (if decide (objectiveAtFull w expF logF pb m (startFull pb) ≤
+                       objectiveAtFull w expF logF pb m v + vtol * ratAbs (objectiveAtFull w expF logF pb m v))
+            then [] else ["no_worse_than_start"])
+         else [])
        else [])
   c1 ++ c2 ++ c3 ++ c4
 
